@@ -340,6 +340,7 @@ static int apply(int li)
 	case L_LAZY:
 		plen = tm_short(pkt, ++M.idseq, M.qt, 'o', tm_5to8(0), L->a ? 'l' : 'i', M.cmc++, DOM);
 		send_q(&SRC_A, pkt, plen);
+		M.lazy = L->a;
 		break;
 	}
 	if (do_settle) settle();
